@@ -13,6 +13,11 @@ Sections
            Coq: normal equations / orthogonality, optimality against perturbations,
            reparametrisation, voxel order / grouping, rescaling, degenerate whiteners,
            engine agreement (incl. labs kalman from the installed module), labs axis handling
+  pos_recipr matrices.pos_recipr over the whole float range: translated threshold (Generated/PosRecipr.v),
+           exact correspondence on +-2^k (k -1000..1000) and zeros, decimal magnitudes 1e-300..1e290
+  stat_scale t / F / t() statistics of models OLS/AR/WLS, fMRI GLM and labs glm contrasts on data scaled by
+           2^e (e -50..40) and 10^d (d -15..6): statistics invariant, effect/sd equivariant, t = effect/sd,
+           engines agree at every scale
   kalman_c the CURRENT lib/fff/fff_glm_kalman.c driven through ctypes on libcstat.so (KF_new / _reset /
            _iterate row by row, KF_fit, RKF_fit): Gallina recursion (Model.kf_step) vs C, batch
            regularised / OLS solutions, ssd/t and dof conventions, RKF against the installed wrapper
@@ -592,6 +597,180 @@ def glm_ar1_section(ck, cx):
             ck.sample({"X": X.tolist(), "Y": Y.tolist(), "steps": steps, "labels_": labels.tolist(), "get_beta": beta.tolist()})
     ck.section("glm_ar1", cases=N, cases_with_shared_and_distinct_labels=multi)
 
+# ---------------------------------------------------------------- pos_recipr and the statistics formed through it
+def _band(c):
+    """structural class of a magnitude"""
+    a = abs(float(c))
+    if a == 0:
+        return "zero"
+    if a <= 2.3e-16:
+        return "le-1e-16"
+    if a < 1e-7:
+        return "1e-16..1e-7"
+    if a <= 1e7:
+        return "1e-7..1e7"
+    return "gt-1e7"
+
+
+def pos_recipr_section(ck, cx):
+    """pos_recipr over the whole float range (model: Generated/PosRecipr.v + Model.q_pos_recipr)"""
+    from nipy.algorithms.utils.matrices import pos_recipr
+    rng = ck.rng("pos-recipr")
+    N = ck.n(40, 300)
+    for i in range(N):
+        m = int(rng.integers(1, 9))
+        ks = rng.integers(-1000, 1001, m) if i % 3 else rng.integers(-70, 10, m)
+        x = np.ldexp(1.0, ks) * rng.choice([1.0, 1.0, 1.0, -1.0], m)
+        if i % 4 == 0:
+            x[int(rng.integers(0, m))] = 0.0
+        shape = [(m,), (m, 1), (1, m)][i % 3]
+        xs = x.reshape(shape)
+        try:
+            y = pos_recipr(xs)
+        except Exception as e:  # noqa
+            ck.fail("pos_recipr/raises", "pos_recipr raised %s: %s" % (type(e).__name__, e), {"x": x.tolist()})
+            continue
+        ck.count(("pr", x.tobytes(), shape), bucket="pos_recipr:pow2")
+        if np.shape(y) != tuple(shape):
+            ck.fail("pos_recipr/shape", "pos_recipr changes the shape %s -> %s" % (shape, np.shape(y)), {"x": xs.tolist()})
+            continue
+        yf = np.asarray(y, dtype=float).ravel()
+        for xv, yv in zip(x, yf):
+            if xv > 0 and yv * xv != 1.0:
+                ck.fail("pos_recipr/positive-entry-not-inverted/%s" % _band(xv), "pos_recipr(%r) = %r, expected %r" % (xv, yv, 1.0 / xv),
+                        {"x": x.tolist(), "pos_recipr": yf.tolist()})
+            if xv <= 0 and yv != 0.0:
+                ck.fail("pos_recipr/non-positive-entry-not-zero", "pos_recipr(%r) = %r, expected 0" % (xv, yv), {"x": x.tolist(), "pos_recipr": yf.tolist()})
+        cx.term("qcvec_eqb (map q_pos_recipr %s) %s" % (qv(x), qv(yf)),
+                "model-vs-impl/pos_recipr", "Gallina pos_recipr (translated threshold) and matrices.pos_recipr disagree",
+                {"x": x.tolist(), "pos_recipr": yf.tolist()},
+                "map this (map q_pos_recipr %s)" % qv(x))
+        # decimal magnitudes (reciprocal rounded): positive rescaling divides the reciprocal
+        d = rng.integers(1, 1000, m).astype(float) * 10.0 ** rng.integers(-300, 290, m).astype(float)
+        yd = np.asarray(pos_recipr(d), dtype=float)
+        bad = np.abs(yd * d - 1.0) > 1e-14
+        if np.any(bad):
+            k = int(np.argmax(bad))
+            ck.fail("pos_recipr/positive-entry-not-inverted/%s" % _band(d[k]), "pos_recipr(%r) = %r" % (d[k], yd[k]), {"x": d.tolist(), "pos_recipr": yd.tolist()})
+        ck.count(("prd", d.tobytes()), bucket="pos_recipr:decimal")
+    ck.section("pos_recipr", cases=N)
+
+
+def _stats(ck, engine, Xf, Yf, cvec, cmat, extra):
+    """t and F statistics (and effect / sd where exposed) of one engine; dict name -> array"""
+    from nipy.algorithms.statistics.models.regression import OLSModel, ARModel, WLSModel
+    from nipy.modalities.fmri.glm import GeneralLinearModel
+    from nipy.labs.glm import glm as labs
+    out = {}
+    if engine in ("models.OLSModel", "models.ARModel", "models.WLSModel"):
+        m = {"models.OLSModel": lambda: OLSModel(Xf), "models.ARModel": lambda: ARModel(Xf, extra["rho"]),
+             "models.WLSModel": lambda: WLSModel(Xf, weights=extra["w"])}[engine]()
+        res = m.fit(Yf)
+        T = res.Tcontrast(cvec)
+        out["t"] = np.atleast_1d(T.t)
+        out["effect"] = np.atleast_1d(T.effect)
+        out["sd"] = np.atleast_1d(T.sd)
+        out["F"] = np.atleast_1d(res.Fcontrast(cmat).F)
+        out["t()"] = np.atleast_2d(m.fit(Yf[:, 0]).t()).ravel()
+    elif engine == "fmri.GeneralLinearModel.ols":
+        g = GeneralLinearModel(Xf)
+        g.fit(Yf, "ols")
+        con = g.contrast(cvec)
+        out["t"] = np.atleast_1d(con.stat())
+        out["effect"] = np.asarray(con.effect).ravel()
+        out["sd"] = np.sqrt(np.asarray(con.variance).ravel())
+        out["F"] = np.atleast_1d(g.contrast(cmat, contrast_type="F").stat())
+    elif engine == "labs.glm.ols":
+        G = labs.glm(Yf, Xf)
+        con = G.contrast(cvec)
+        out["t"] = np.atleast_1d(con.stat())
+        out["effect"] = np.asarray(con.effect).ravel()
+        out["sd"] = np.sqrt(np.atleast_1d(con.variance).ravel())
+        out["F"] = np.atleast_1d(G.contrast(cmat, type="F").stat())
+    return out
+
+
+def stat_scale_section(ck):
+    """contrast statistics are invariant under positive rescaling of the data over many decades
+    (effect and sd carry the factor), agree between the engines at every scale, and the models-package
+    statistics are effect * pos_recipr(sd) / quad * pos_recipr(q * dispersion)"""
+    rng = ck.rng("stat-scale")
+    N = ck.n(40, 250)
+    engines_ = ["models.OLSModel", "models.ARModel", "models.WLSModel", "fmri.GeneralLinearModel.ols", "labs.glm.ols"]
+    for i in range(N):
+        n = int(rng.integers(5, 17 if not ck.thorough() else 31))
+        p = int(rng.integers(1, min(n - 2, 4) + 1))
+        V = int(rng.integers(1, 6))
+        X = rand_design(rng, n, p)
+        Y = rand_data(rng, n, V, X)
+        Xf, Yf = X.astype(float), Y.astype(float)
+        ex = [exact_ls(X.tolist(), Y[:, v].tolist()) for v in range(V)]
+        nz = np.array([e[2] != 0 for e in ex])
+        if not nz[0] or not np.any(nz):
+            continue
+        cvec = rng.integers(-2, 3, p).astype(float)
+        if not np.any(cvec):
+            cvec[0] = 1.0
+        q = int(rng.integers(1, min(p, 3) + 1))
+        cmat = np.eye(p)[rng.permutation(p)[:q]]
+        den = int(rng.choice([2, 4, 8]))
+        extra = {"rho": [float(Fraction(int(rng.integers(-den + 1, den)), den))],
+                 "w": (rng.integers(1, 5, n) ** 2).astype(float)}
+        # scales: always one in the 1e-15..1e-8 band, one moderate, one large; powers of two (exact) and decimal
+        es = [int(rng.integers(-50, -26)), int(rng.integers(-26, 0)), int(rng.integers(1, 41))]
+        scales = [2.0 ** e for e in es] + [10.0 ** int(rng.integers(-15, -7)), 10.0 ** int(rng.integers(-6, 7))]
+        rep0 = {"X": X.tolist(), "Y": Y.tolist(), "contrast": cvec.tolist(), "F_contrast": cmat.tolist(),
+                "rho": extra["rho"], "weights": extra["w"].tolist()}
+        ref = {}
+        for eng in engines_:
+            try:
+                ref[eng] = _stats(ck, eng, Xf, Yf, cvec, cmat, extra)
+            except Exception as e:  # noqa
+                ck.fail("stat/%s/raises" % eng, "%s raised %s: %s" % (eng, type(e).__name__, e), rep0)
+        ck.count(("stat", X.tobytes(), Y.tobytes(), cvec.tobytes()), bucket="stat_scale:p%d:q%d" % (p, q))
+        for c in scales:
+            for eng in ref:
+                rep = dict(rep0, scale=c, engine=eng)
+                try:
+                    st = _stats(ck, eng, Xf, c * Yf, cvec, cmat, extra)
+                except Exception as e:  # noqa
+                    ck.fail("stat/%s/raises/scale-%s" % (eng, _band(c)), "%s raised %s on data x %g: %s" % (eng, type(e).__name__, c, e), rep)
+                    continue
+                ck.count(("stat", X.tobytes(), Y.tobytes(), cvec.tobytes(), c, eng), bucket="stat_scale:scale-%s" % _band(c))
+                for k_, v_ in st.items():
+                    want = ref[eng][k_] * (c if k_ in ("effect", "sd") else 1.0)
+                    got = v_
+                    msk = nz if (got.shape == nz.shape and k_ != "t()") else np.ones(got.shape, bool)
+                    # statistics are O(1) quantities; effect / sd live on the scale c * max|Y| (an exactly zero
+                    # effect is round-off noise on that scale)
+                    floor = 1e-9 * (c * (1.0 + float(np.abs(Yf).max())) if k_ in ("effect", "sd") else 1.0)
+                    if got.shape != want.shape or not np.all(np.isfinite(got[msk])) or \
+                            np.any(np.abs(got[msk] - want[msk]) > 1e-7 * np.abs(want[msk]) + floor):
+                        ck.fail("rescale/%s/%s-not-scale-%s/data-scale-%s" % (eng, k_, "equivariant" if k_ in ("effect", "sd") else "invariant", _band(c)),
+                                "%s: %s of data x %g is %s, expected %s" % (eng, k_, c, np.asarray(got).tolist(), np.asarray(want).tolist()), rep)
+                # the statistics are what the property says they are, at this scale
+                if "effect" in st and "sd" in st and st["t"].shape == st["effect"].shape:
+                    ok = st["sd"] > 0
+                    tt = np.where(ok, st["effect"] / np.where(ok, st["sd"], 1.0), 0.0)
+                    if np.any(np.abs(st["t"][nz & ok] - tt[nz & ok]) > 1e-7 * np.abs(tt[nz & ok]) + 1e-9):
+                        ck.fail("stat/%s/t-is-not-effect-over-sd/data-scale-%s" % (eng, _band(c)),
+                                "%s: t = %s but effect/sd = %s on data x %g" % (eng, st["t"].tolist(), tt.tolist(), c), rep)
+            # engines agree on t and F at this scale
+            base = "labs.glm.ols"
+            for eng in ref:
+                if eng in ("models.OLSModel", "fmri.GeneralLinearModel.ols") and base in ref:
+                    try:
+                        a_, b_ = _stats(ck, eng, Xf, c * Yf, cvec, cmat, extra), _stats(ck, base, Xf, c * Yf, cvec, cmat, extra)
+                    except Exception:  # noqa (reported above)
+                        continue
+                    for k_ in ("t", "F"):
+                        if a_[k_].shape == b_[k_].shape == nz.shape and np.any(np.abs(a_[k_][nz] - b_[k_][nz]) > 1e-6 * (1 + np.abs(b_[k_][nz]))):
+                            ck.fail("engines/%s-vs-labs-ols/%s-statistic/data-scale-%s" % (eng, k_, _band(c)),
+                                    "%s statistic: %s gives %s, labs glm gives %s on data x %g" % (k_, eng, a_[k_].tolist(), b_[k_].tolist(), c),
+                                    dict(rep0, scale=c))
+    ck.section("stat_scale", cases=N, engines=engines_)
+
+
 # ---------------------------------------------------------------- current fff_glm_kalman.c through ctypes
 def _kalman_lib(ck):
     import ctypes as C
@@ -755,6 +934,71 @@ def kalman_c_section(ck, cx):
                         dict(rep, b=rb.tolist(), installed_b=B[:, 0].tolist(), a=ra, installed_a=float(A.ravel()[0])))
         except ImportError:
             pass
+        # ---- one filter object for a whole block of voxels, as kalman.pyx uses it: the fit of a voxel must not
+        #      depend on the voxels fitted before it with the same object (position in the block, order, niter)
+        Vn = int(rng.integers(2, 6))
+        Yb = np.ascontiguousarray(rand_data(rng, n, Vn, X), dtype=float)
+        niter = int(rng.choice([1, 2, 2, 3, 4]))
+
+        def rkf_block(cols, fresh_each=False):
+            outs = []
+            rk_ = lib.fff_glm_RKF_new(p)
+            for v_ in cols:
+                if fresh_each:
+                    lib.fff_glm_RKF_delete(rk_)
+                    rk_ = lib.fff_glm_RKF_new(p)
+                yy_ = np.ascontiguousarray(Yb[:, v_])
+                yv_ = vec(yy_)
+                lib.fff_glm_RKF_fit(rk_, niter, C.byref(yv_), C.byref(Xm))
+                r_ = rk_.contents
+                outs.append(np.concatenate([[r_.b.contents.data[j] for j in range(p)], [r_.Vb.contents.data[j] for j in range(p * p)],
+                                            [r_.s2, r_.a, r_.dof, r_.s2_cor]]))
+            lib.fff_glm_RKF_delete(rk_)
+            return np.array(outs)
+
+        def kf_block(cols, fresh_each=False):
+            outs = []
+            k_ = lib.fff_glm_KF_new(p)
+            for v_ in cols:
+                if fresh_each:
+                    lib.fff_glm_KF_delete(k_)
+                    k_ = lib.fff_glm_KF_new(p)
+                yy_ = np.ascontiguousarray(Yb[:, v_])
+                yv_ = vec(yy_)
+                lib.fff_glm_KF_fit(k_, C.byref(yv_), C.byref(Xm))
+                c_ = k_.contents
+                outs.append(np.concatenate([[c_.b.contents.data[j] for j in range(p)], [c_.Vb.contents.data[j] for j in range(p * p)],
+                                            [c_.ssd, c_.s2, c_.dof, c_.s2_cor]]))
+            lib.fff_glm_KF_delete(k_)
+            return np.array(outs)
+        order = list(range(Vn))
+        perm = [int(v_) for v_ in rng.permutation(Vn)]
+        for nm, blockfn, feat in (("rkf", rkf_block, "niter%s" % ("1" if niter == 1 else ">=2")), ("kf", kf_block, "ols")):
+            reused = blockfn(order)
+            fresh = blockfn(order, fresh_each=True)
+            permuted = blockfn(perm)
+            ck.count(("reuse", nm, X.tobytes(), Yb.tobytes(), niter), bucket="kalman_c:reuse:%s:%s" % (nm, feat))
+            brep = dict(X=X.tolist(), Y=Yb.tolist(), niter=niter, filter=nm)
+            for v_ in range(Vn):
+                if not np.allclose(reused[v_], fresh[v_], rtol=1e-10, atol=1e-12, equal_nan=True):
+                    ck.fail("kalman-c/%s-fit-depends-on-voxels-fitted-before/%s/voxel-not-first-in-block" % (nm, feat),
+                            "voxel %d of a block fitted with one re-used %s object differs from the same voxel fitted with a fresh object "
+                            "(b, Vb, s2/ssd, a ...): %s vs %s" % (v_, nm.upper(), reused[v_].tolist(), fresh[v_].tolist()), dict(brep, voxel=v_))
+                    break
+            if not np.allclose(permuted, reused[perm], rtol=1e-10, atol=1e-12, equal_nan=True):
+                ck.fail("kalman-c/%s-fit-depends-on-voxel-order/%s" % (nm, feat),
+                        "fitting the voxels in another order with one re-used %s object does not permute the results" % nm.upper(), dict(brep, perm=perm))
+        # the installed wrapper on the same block (same C unless edited)
+        try:
+            from nipy.labs.glm import kalman as kmod
+            B, VB, S2, dof_, A = kmod.ar1(Yb.copy(), Xf, niter=niter, axis=0)
+            cur = rkf_block(order)
+            if np.all(np.isfinite(cur)) and (not close(cur[:, :p].T, B, 1e-9) or not close(cur[:, p + p * p], S2.ravel(), 1e-9)
+                                             or not close(cur[:, p + p * p + 1], A.ravel(), 1e-9)):
+                ck.fail("kalman-c/rkf-block-differs-from-installed-module/niter%s" % ("1" if niter == 1 else ">=2"),
+                        "fff_glm_RKF_fit over a block of voxels (current C) and the installed kalman.ar1 disagree", dict(X=X.tolist(), Y=Yb.tolist(), niter=niter))
+        except ImportError:
+            pass
         if i < 1:
             ck.sample({"kalman_c": rep, "b": b_fit.tolist(), "ssd": ssd, "s2": s2, "dof": dof, "s2_cor": s2c})
     ck.section("kalman_c", cases=N, rkf_cases_against_installed_module=stale)
@@ -773,6 +1017,8 @@ def run(ck):
     glm_ar1_section(ck, cx)
     labs_axis_section(ck)
     kalman_c_section(ck, cx)
+    pos_recipr_section(ck, cx)
+    stat_scale_section(ck)
     cx.flush()
     ck.section("model", coq_terms=len(cx.terms))
     ck.trust.append("oracle contracts (hypotheses of pinv_solves_normal_eq / ols_fit_optimal): numpy.linalg.pinv returns P with "
